@@ -1,10 +1,10 @@
 #!/bin/bash
-# tools/eval4.sh <pkg> [tier]: evaluate /tmp/wt4/<pkg>/mutants/m* against the property named in notes.md plus the package's checks
+# [WT=/tmp/wt5] tools/eval4.sh <pkg> [tier]: evaluate $WT/<pkg>/mutants/m* against the property named in notes.md plus the package's checks
 PKG=$1; TIER=${2:-quick}
 declare -A DEF=( [qr]="C01 C10 C11 C12 C13 C15" [datamatrix]="C02 C10 C11 C12 C13 C15" [aztec]="C03 C10 C11 C12 C13 C15" [pdf417]="C04 C10 C11 C12 C13 C15"
  [code128]="C05 C10 C11 C14 C15" [code39]="C07 C10 C11 C14 C15" [code93]="C07 C10 C11 C15" [codabar]="C08 C10 C11 C15" [ean]="C06 C10 C11 C14 C15" [twooffive]="C08 C10 C11 C15"
- [utils-bits]="C18 C11 C05 C09 C14" [utils-gf]="C17 C01 C02 C03 C15" [root-scale]="C09 C11 C14" )
-for m in /tmp/wt4/$PKG/mutants/m*; do
+ [code39-93]="C07 C10 C11 C14 C15" [codabar-2of5]="C08 C10 C11 C15" [utils-bits]="C18 C11 C05 C09 C14" [utils-gf]="C17 C01 C02 C03 C15" [root-scale]="C09 C11 C14" )
+for m in ${WT:-/tmp/wt4}/$PKG/mutants/m*; do
   [ -f "$m/patch.diff" ] || continue
   P=$(head -3 "$m/notes.md" | grep -o 'C[0-9][0-9]' | head -1)
   LIST="$P"; for q in ${DEF[$PKG]}; do [ "$q" != "$P" ] && LIST="$LIST $q"; done
